@@ -289,11 +289,18 @@ impl<'a> Parser<'a> {
             "null" => Ok(Value::Null),
             "true" => Ok(Value::Bool(true)),
             "false" => Ok(Value::Bool(false)),
-            number => Ok(Value::Number(
-                number
-                    .parse()
-                    .map_err(|_| self.traceback(ParseError::InvalidToken))?,
-            )),
+            number => {
+                quiet_assert(
+                    is_json_number(number),
+                    self.traceback(ParseError::InvalidToken),
+                )?;
+
+                Ok(Value::Number(
+                    number
+                        .parse()
+                        .map_err(|_| self.traceback(ParseError::InvalidToken))?,
+                ))
+            }
         }
     }
 
@@ -338,6 +345,59 @@ fn quiet_assert(condition: bool, error: TracebackError) -> Result<(), TracebackE
 }
 
 /// Check whether a character is whitespace according to the specification.
+/// Checks that a literal follows the number grammar of [RFC 8259 section 6](https://datatracker.ietf.org/doc/html/rfc8259#section-6).
+/// The float parser of the standard library on its own also accepts `+1`, `01`, `.5`, `1.`, `inf` and `NaN`.
+fn is_json_number(s: &str) -> bool {
+    let mut chars = s.chars().peekable();
+
+    if chars.peek() == Some(&'-') {
+        chars.next();
+    }
+
+    // Integer part: a single zero, or a non-zero digit followed by any number of digits
+    match chars.next() {
+        Some('0') => (),
+        Some('1'..='9') => {
+            while matches!(chars.peek(), Some('0'..='9')) {
+                chars.next();
+            }
+        }
+        _ => return false,
+    }
+
+    // Optional fraction: a decimal point followed by at least one digit
+    if chars.peek() == Some(&'.') {
+        chars.next();
+
+        if !matches!(chars.next(), Some('0'..='9')) {
+            return false;
+        }
+
+        while matches!(chars.peek(), Some('0'..='9')) {
+            chars.next();
+        }
+    }
+
+    // Optional exponent: `e` or `E`, an optional sign, and at least one digit
+    if matches!(chars.peek(), Some('e') | Some('E')) {
+        chars.next();
+
+        if matches!(chars.peek(), Some('+') | Some('-')) {
+            chars.next();
+        }
+
+        if !matches!(chars.next(), Some('0'..='9')) {
+            return false;
+        }
+
+        while matches!(chars.peek(), Some('0'..='9')) {
+            chars.next();
+        }
+    }
+
+    chars.next().is_none()
+}
+
 fn is_whitespace(c: impl Borrow<char>) -> bool {
     matches!(c.borrow(), ' ' | '\t' | '\n' | '\r')
 }
